@@ -1,7 +1,7 @@
 (* EGraph/InvMachine.v — machine `egc`: for one history, evaluate the executable premise of
    C13_eq_is_an_equivalence_on_reachable_states (both handles of every union cover their classes) and the
    executable part of the invariant eg_inv2 on the final state. *)
-From SE Require Import EGraph.ModelMachine EGraph.UnionFindFacts EGraph.InvariantFacts EGraph.UnionInvariantFacts.
+From SE Require Import EGraph.ModelMachine EGraph.UnionFindFacts EGraph.InvariantFacts EGraph.UnionInvariantFacts EGraph.CongruenceFacts.
 
 Definition run_egc (args : list sexp) : sexp :=
   match args with
@@ -13,7 +13,8 @@ Definition run_egc (args : list sexp) : sexp :=
           | Ok (hs, s) =>
               Lst [Sym "inv"; Lst [Sym "covered"; sbool (unions_coveredb rts ops [] empty_egraph)];
                    Lst [Sym "invb"; sbool (eg_invb s)];
-                   Lst [Sym "handles-cover"; sbool (forallb (coversb s) hs)]]
+                   Lst [Sym "handles-cover"; sbool (forallb (coversb s) hs)];
+                   Lst [Sym "self-symmetries"; sbool (ss_okb s)]]
           end
       | _, _ => Sym "bad-case"
       end
